@@ -33,7 +33,10 @@
               construction and is checked against every traced run.
    [PFixed k] a loop whose order is computed from data that is already fixed (the rank order:
               toposort levels sorted by the — by now assigned — identifiers; list pages sorted by
-              name): a sequence of requests that is part of the project.
+              name): a sequence of requests that is part of the project — up to the order among
+              requests for DIFFERENT (directory, name) keys: inside one container the derived
+              types are compared while a set of them is sorted, and the types of one scope have
+              different names ([key_equiv]).
 
    The pipelines before the repairs ([BySet]: a set-ordered loop that may ask for anything) are
    kept at the end only to state what the repairs repaired.
@@ -160,8 +163,15 @@ Definition idsel (P : project) (pi : list nat) : list (list req) :=
 (* THE function of (files, pi, sigma): the identifier of every entity.  pi is the iteration order
    of the set find_all_files returns (Project.__init__ sorts it before parsing), sigma the
    iteration orders of the sets of objects hashed by id. *)
-Definition idents (P : project) (pi : list nat) (sigma : list (list nat)) : list (nat * option str) :=
-  idents_enum P (sorted_enum P pi) (p_sets P) (enum_sets (idsel P pi) sigma).
+Definition idents (P : project) (pi : list nat) (sigma : list (list nat)) (fixed : list (list req))
+  : list (nat * option str) :=
+  idents_enum P (sorted_enum P pi) fixed (enum_sets (idsel P pi) sigma).
+
+(* the fixed phases of a run: the project's sequences, up to the order among different keys *)
+Definition name_key (r : req) : str * str := (r_dir r, final_name (r_name r)).
+Definition has_key (K : str * str) (r : req) : bool := key_eqb (name_key r) K.
+Definition key_equiv (a b : list req) : Prop := forall K, filter (has_key K) a = filter (has_key K) b.
+Definition fixed_ok (P : project) (fixed : list (list req)) : Prop := Forall2 key_equiv fixed (p_sets P).
 
 Definition sigma_ok (P : project) (pi : list nat) (sigma : list (list nat)) : Prop :=
   perms_ok (idsel P pi) sigma.
@@ -177,14 +187,17 @@ Definition relocate (root : list str) (P : project) : project :=
 Definition req_eqb (a b : req) : bool :=
   Nat.eqb (r_id a) (r_id b) && str_eqb (r_dir a) (r_dir b) && str_eqb (r_name a) (r_name b).
 
-Definition name_key (r : req) : str * str := (r_dir r, final_name (r_name r)).
-
 (* two requests are compatible: same entity -> same request; different entities -> they do not
    compete for one counter of the NameSelector *)
 Definition pair_ok (a b : req) : bool :=
   if Nat.eqb (r_id a) (r_id b) then req_eqb a b else negb (key_eqb (name_key a) (name_key b)).
 
 Definition no_clash_list (rs : list req) : bool := forallb (fun a => forallb (pair_ok a) rs) rs.
+
+(* well-formedness of a project: one request per entity (equal ids, equal requests) *)
+Definition consistentb (P : project) : bool :=
+  forallb (fun a => forallb (fun b => if Nat.eqb (r_id a) (r_id b) then req_eqb a b else true) (all_reqs P))
+          (all_reqs P).
 
 (* ------------------------------------------------------------------ other sets that reach the output *)
 
@@ -213,6 +226,21 @@ Definition emit_child_edges (parent : str) (children : list str) (pi : list nat)
 Definition emit_child_edges_unsorted (parent : str) (children : list str) (pi : list nat)
   : list (str * str) :=
   map (fun c => (c, parent)) (enumerate children pi).
+
+(* FortranGraph._make_graph_as_table (the HTML table shown instead of a graph whose first hop
+   exceeds graph_maxnodes): the edges of the hop were appended neighbour by neighbour, the
+   neighbours walked in sorted (identifier) order by add_node; the rows are
+   "self.hop_edges.sort(key=label.lower())", a stable sort.  A neighbour is (identifier, label). *)
+Definition ident_leb (a b : str * str) : bool := str_leb (fst a) (fst b).
+Definition label_leb (a b : str * str) : bool := str_leb (lower (snd a)) (lower (snd b)).
+
+Definition emit_table_rows (neighbours : list (str * str)) (pi : list nat) : list (str * str) :=
+  isort label_leb (isort ident_leb (enumerate neighbours pi)).
+
+(* what the code does NOT do: sort the set of neighbours by label directly (equal labels would
+   come out in set order) *)
+Definition emit_table_rows_from_set (neighbours : list (str * str)) (pi : list nat) : list (str * str) :=
+  isort label_leb (enumerate neighbours pi).
 
 (* ------------------------------------------------------------------ before the repairs *)
 
